@@ -158,10 +158,21 @@ class Rope:
                 return (i, 0)
         return None
 
+    def split_bv(self, ctx: Ctx, pos):
+        """Split a rope consisting of one BVSeg at an arbitrary provably in-range position."""
+        if len(self.segs) == 1 and isinstance(self.segs[0], BVSeg):
+            s = self.segs[0]
+            if ctx.valid(z3.And(pos >= 0, pos <= s.ln)):
+                return (Rope([BVSeg(s.arr, s.off, z3.simplify(pos))]),
+                        Rope([BVSeg(s.arr, z3.simplify(s.off + pos), z3.simplify(s.ln - pos))]))
+        return None
+
     def split_at(self, ctx: Ctx, pos) -> Optional[tuple]:
         loc = self.locate(ctx, pos)
         if loc is None:
-            return None
+            if not z3.is_expr(pos):
+                pos = z3.IntVal(int(pos))
+            return self.split_bv(ctx, pos)
         i, d = loc
         if d == 0:
             return Rope(self.segs[:i]), Rope(self.segs[i:])
@@ -382,3 +393,71 @@ SymList.pyvc_eq = _symlist_eq
 SymList.pyvc_len = lambda self, it: __import__('pyvc.natives', fromlist=['sym_int']).sym_int(self.n)
 SymList.pyvc_truth = lambda self, it: self.n > 0
 SymPrefix.pyvc_truth = lambda self, it: self.k > 0
+
+
+# --- byte strings with symbolic *content* (obfuscation proofs) --------------------
+
+BV8 = z3.BitVecSort(8)
+
+
+class BVSeg(Seg):
+    """Bytes j |-> arr[off + j] for 0 <= j < ln, arr : Array(Int, BV8)."""
+    __slots__ = ('arr', 'off', 'ln')
+
+    def __init__(self, arr, off, ln):
+        self.arr = arr
+        self.off = off if z3.is_expr(off) else z3.IntVal(off)
+        self.ln = ln if z3.is_expr(ln) else z3.IntVal(ln)
+
+    def length(self):
+        return self.ln
+
+    def byte(self, j):
+        return z3.Select(self.arr, z3.simplify(self.off + j))
+
+    def __repr__(self):
+        return f'BV({self.arr}+{self.off}:{self.ln})'
+
+
+def bv_of_int(t, width: int):
+    """Bit-vector of an int term: strips BV2Int when the term is bit-vector backed."""
+    b = bv_backing(t)
+    if b is not None:
+        if b.size() == width:
+            return b
+        if b.size() < width:
+            return z3.ZeroExt(width - b.size(), b)
+        return z3.Extract(width - 1, 0, b)
+    if z3.is_int_value(t):
+        return z3.BitVecVal(t.as_long(), width)
+    return z3.Int2BV(t, width)
+
+
+def bv_backing(t):
+    if z3.is_app(t) and t.decl().kind() == z3.Z3_OP_BV2INT:
+        return t.arg(0)
+    return None
+
+
+def seg_byte(seg: Seg, k: int):
+    """BV8 expression of byte k (concrete) of a segment."""
+    if isinstance(seg, Lit):
+        return z3.BitVecVal(seg.data[k], 8)
+    if isinstance(seg, LE):
+        bv = bv_of_int(seg.t, 8 * seg.w)
+        return z3.Extract(8 * k + 7, 8 * k, bv)
+    if isinstance(seg, BVSeg):
+        return seg.byte(z3.IntVal(k))
+    raise Unsupported(f'byte of {seg!r}')
+
+
+def rope_bytes_bv(ctx: Ctx, r: 'Rope'):
+    """List of BV8 expressions when the rope has a concrete total length, else None."""
+    out = []
+    for s in r.segs:
+        ln = z3.simplify(s.length())
+        if not z3.is_int_value(ln):
+            return None
+        for k in range(ln.as_long()):
+            out.append(seg_byte(s, k))
+    return out
